@@ -29,6 +29,9 @@ pub enum Op {
     Shutdown,
     /// AddVamm / RemoveVamm of the deployment's extra vAMM whose decimals differ from the engine's
     RegisterAlien { add: bool },
+    /// engine message by trader 0 naming the address "<vamm>0" (not a contract): with trader "0alice" holding a
+    /// position this aliases its storage key if keys are concatenated without separator
+    Alias { kind: u8, v: u8, amt: u16 },
 }
 
 #[derive(Clone, Debug, Serialize, Deserialize, PartialEq, Eq, Hash)]
@@ -59,6 +62,7 @@ pub struct Weights {
     pub whitelist: u32,
     pub shutdown: u32,
     pub alien: u32,
+    pub alias: u32,
 }
 
 impl Weights {
@@ -83,6 +87,7 @@ impl Weights {
             whitelist: 0,
             shutdown: 0,
             alien: 0,
+            alias: 0,
         }
     }
 }
@@ -256,7 +261,7 @@ pub fn world_cfg_strategy(p: &CfgProfile) -> BoxedStrategy<WorldCfg> {
 }
 
 pub fn op_strategy(w: &Weights) -> BoxedStrategy<Op> {
-    let t = || 0u8..5;
+    let t = || 0u8..6;
     let v = || 0u8..4;
     let mut alts: Vec<(u32, BoxedStrategy<Op>)> = vec![];
     let mut add = |wt: u32, s: BoxedStrategy<Op>| {
@@ -302,6 +307,7 @@ pub fn op_strategy(w: &Weights) -> BoxedStrategy<Op> {
     add(w.whitelist, (t(), any::<bool>()).prop_map(|(t, add)| Op::Whitelist { t, add }).boxed());
     add(w.shutdown, Just(Op::Shutdown).boxed());
     add(w.alien, any::<bool>().prop_map(|add| Op::RegisterAlien { add }).boxed());
+    add(w.alias, (0u8..6, v(), any::<u16>()).prop_map(|(kind, v, amt)| Op::Alias { kind, v, amt }).boxed());
     proptest::strategy::Union::new_weighted(alts).boxed()
 }
 
